@@ -2,6 +2,14 @@
 
 package pipeline
 
+import (
+	"encoding/json"
+
+	"github.com/buildkite/go-pipeline/internal/env"
+	"github.com/buildkite/go-pipeline/ordered"
+	"gopkg.in/yaml.v3"
+)
+
 // C19 - observers of pipeline objects do not mutate what they observe.
 // (A data race needs a write: together with the SSA pass showing that no
 // function stores to package-level state, read-only sharing is race-free.)
@@ -10,6 +18,81 @@ func init() {
 	vpRegister("c19_obs_plugin", vpH_c19_obs_plugin)
 	vpRegister("c19_obs_matrix", vpH_c19_obs_matrix)
 	vpRegister("c19_obs_step", vpH_c19_obs_step)
+	vpRegister("c19_disjoint", vpH_c19_disjoint)
+}
+
+func vpYStr(v string) *yaml.Node { return &yaml.Node{Kind: yaml.ScalarNode, Tag: "!!str", Value: v} }
+func vpYMap(kv ...*yaml.Node) *yaml.Node {
+	return &yaml.Node{Kind: yaml.MappingNode, Tag: "!!map", Content: kv}
+}
+func vpYSeq(items ...*yaml.Node) *yaml.Node {
+	return &yaml.Node{Kind: yaml.SequenceNode, Tag: "!!seq", Content: items}
+}
+func vpYAnchor(name string, n *yaml.Node) *yaml.Node { n.Anchor = name; return n }
+func vpYAlias(n *yaml.Node) *yaml.Node {
+	return &yaml.Node{Kind: yaml.AliasNode, Alias: n, Value: n.Anchor}
+}
+
+// Distinct objects share only package-level state: two steps of one parsed
+// pipeline, and two parses of one document, have no mutable memory in common -
+// also when the document spells them with one anchor and several aliases - so
+// working on one (here: interpolating it) cannot be seen through the other.
+func vpH_c19_disjoint() {
+	val := "$Q" + vpStrUpTo(1, "a-b")
+	var first, second, third *yaml.Node
+	shape := vpInt(0, 5)
+	switch shape {
+	case 0: // an unknown field (kept verbatim) spelled once, aliased once
+		ag := vpYAnchor("a", vpYMap(vpYStr("queue"), vpYStr(val), vpYStr("tags"), vpYSeq(vpYStr("t"))))
+		first = vpYMap(vpYStr("command"), vpYStr("c1"), vpYStr("agents"), ag)
+		second = vpYMap(vpYStr("command"), vpYStr("c2"), vpYStr("agents"), vpYAlias(ag))
+		third = vpYMap(vpYStr("command"), vpYStr("c3"), vpYStr("agents"), vpYAlias(ag))
+	case 1: // step env
+		en := vpYAnchor("a", vpYMap(vpYStr("K"), vpYStr(val)))
+		first = vpYMap(vpYStr("command"), vpYStr("c1"), vpYStr("env"), en)
+		second = vpYMap(vpYStr("command"), vpYStr("c2"), vpYStr("env"), vpYAlias(en))
+		third = vpYMap(vpYStr("command"), vpYStr("c3"), vpYStr("env"), vpYAlias(en))
+	case 2: // plugins with a config
+		pl := vpYAnchor("a", vpYSeq(vpYMap(vpYStr("docker#v1"), vpYMap(vpYStr("image"), vpYStr(val), vpYStr("l"), vpYSeq(vpYStr(val))))))
+		first = vpYMap(vpYStr("command"), vpYStr("c1"), vpYStr("plugins"), pl)
+		second = vpYMap(vpYStr("command"), vpYStr("c2"), vpYStr("plugins"), vpYAlias(pl))
+		third = vpYMap(vpYStr("command"), vpYStr("c3"), vpYStr("plugins"), vpYAlias(pl))
+	case 3: // matrix
+		mx := vpYAnchor("a", vpYMap(vpYStr("setup"), vpYMap(vpYStr("os"), vpYSeq(vpYStr(val))), vpYStr("adjustments"), vpYSeq(vpYMap(vpYStr("with"), vpYMap(vpYStr("os"), vpYStr("w")), vpYStr("soft_fail"), vpYSeq(vpYStr(val))))))
+		first = vpYMap(vpYStr("command"), vpYStr("c1"), vpYStr("matrix"), mx)
+		second = vpYMap(vpYStr("command"), vpYStr("c2"), vpYStr("matrix"), vpYAlias(mx))
+		third = vpYMap(vpYStr("command"), vpYStr("c3"), vpYStr("matrix"), vpYAlias(mx))
+	case 4: // a whole step
+		first = vpYAnchor("a", vpYMap(vpYStr("command"), vpYStr("c1"), vpYStr("agents"), vpYMap(vpYStr("queue"), vpYStr(val)), vpYStr("env"), vpYMap(vpYStr("K"), vpYStr(val))))
+		second = vpYAlias(first)
+		third = vpYAlias(first)
+	default: // the children of a group
+		kids := vpYAnchor("a", vpYSeq(vpYMap(vpYStr("command"), vpYStr("k"), vpYStr("agents"), vpYMap(vpYStr("queue"), vpYStr(val)))))
+		first = vpYMap(vpYStr("group"), vpYStr("g1"), vpYStr("steps"), kids)
+		second = vpYMap(vpYStr("group"), vpYStr("g2"), vpYStr("steps"), vpYAlias(kids))
+		third = vpYMap(vpYStr("group"), vpYStr("g3"), vpYStr("steps"), vpYAlias(kids))
+	}
+	doc := vpYMap(vpYStr("steps"), vpYSeq(first, second, third))
+	p1, p2 := new(Pipeline), new(Pipeline)
+	e1, e2 := ordered.Unmarshal(doc, p1), ordered.Unmarshal(doc, p2)
+	vpAssert(e1 == nil && e2 == nil && len(p1.Steps) == 3 && len(p2.Steps) == 3, "the document parses to three steps, twice")
+	if e1 != nil || e2 != nil || len(p1.Steps) != 3 || len(p2.Steps) != 3 {
+		return
+	}
+	vpAssert(vpShared(p1.Steps[0], p1.Steps[1]) == 0 && vpShared(p1.Steps[0], p1.Steps[2]) == 0 && vpShared(p1.Steps[1], p1.Steps[2]) == 0, "the steps of one pipeline share no mutable memory, also when spelled with one anchor and several aliases")
+	vpAssert(vpShared(p1, p2) == 0, "two parses of one document share no mutable memory")
+	before, berr := json.Marshal(p2)
+	b1, _ := json.Marshal(p1.Steps[1])
+	// work on one object ...
+	s0 := Steps{p1.Steps[2]}
+	q := &Pipeline{Steps: s0}
+	ierr := q.Interpolate(env.New(env.FromMap(map[string]string{"Q": "x"})), false)
+	vpAssert(ierr == nil, "interpolating one step succeeds")
+	// ... and look at the others
+	after, aerr := json.Marshal(p2)
+	a1, _ := json.Marshal(p1.Steps[1])
+	vpAssert(berr == nil && aerr == nil && vpJEqual(before, after), "interpolating a step of one parse leaves the other parse unchanged")
+	vpAssert(vpJEqual(b1, a1), "interpolating one step leaves its sibling unchanged")
 }
 
 func vpH_c19_obs_plugin() {
